@@ -121,7 +121,14 @@ class Pos(Transformer):
     def NUM(self, t): return (int(t), t.start_pos)
     def item(self, c): return tuple(c)
 
+class Partial(Transformer):
+    # defines the rule name but NOT the alias of one of its alternatives (and vice versa): a node is handled by the callback of ITS OWN name only
+    def item(self, c): return ('item',) + tuple(map(str, c))
+    def neg(self, c): return ('neg',) + tuple(map(str, c))
+
 SC = [
+    ('start: item+\nitem: NAME | NAME "=" NUM -> assign\nNAME: /[a-z]+/\nNUM: /[0-9]+/\n%ignore " "', Partial, ['a', 'a=1', 'a b=2 c']),
+    ('start: expr\n?expr: NUM | "-" NUM -> neg | expr "+" NUM -> item\nNUM: /[0-9]+/\n%ignore " "', Partial, ['1', '-1', '1+2', '-1+2']),
     ('start: item+\nitem: NAME ":" NUM | NAME\nNAME: /[a-z]+/\nNUM: /[0-9]+/\n%ignore /[ ,\\n]+/', Pos, ['a:1, b, a:1, a', 'x\nx x\nx:2 x:2', 'q']),
     ('start: expr\n?expr: num | expr "+" num -> add | "-" num -> neg\nnum: NUM\nNUM: /[0-9]+/\n%ignore " "', Calc, ['1', '1+2', '1+2+3', '-4']),
     ('!start: NAME _ASSIGN NAME\n_ASSIGN: "="\nNAME: /[a-z]+/', Calc, ['a=b']),
